@@ -24,6 +24,43 @@ fn oracle_with_prec(x: &BigDecimal, p: u64) -> (BigInt, i64) {
     (if neg { -q } else { q }, s - k as i64)
 }
 
+fn mode_of(s: &str) -> RoundingMode {
+    match s { "Up" => RoundingMode::Up, "Down" => RoundingMode::Down, "Ceiling" => RoundingMode::Ceiling, "Floor" => RoundingMode::Floor,
+              "HalfUp" => RoundingMode::HalfUp, "HalfDown" => RoundingMode::HalfDown, "HalfEven" => RoundingMode::HalfEven, _ => panic!("mode") }
+}
+fn ctx_of(p: &str, m: &str) -> Context {
+    Context::new(std::num::NonZeroU64::new(p.parse().unwrap()).unwrap(), mode_of(m))
+}
+fn ndigits(n: &BigInt) -> u64 { let s = n.to_string(); s.trim_start_matches('-').len() as u64 }
+/// compare a*10^ea with b*10^eb
+fn cmp_scaled(a: &BigInt, ea: i64, b: &BigInt, eb: i64) -> std::cmp::Ordering {
+    let m = ea.min(eb);
+    (a * pow10((ea - m) as u32)).cmp(&(b * pow10((eb - m) as u32)))
+}
+/// is r (positive, p digits) the k-th root of x (positive) correctly rounded under `mode` (as seen from the positive side)?
+/// integers only: compares ri^k (or (2ri+-1)^k) with n at matching powers of ten
+fn root_ok(k: u32, x: &BigDecimal, r: &BigDecimal, p: u64, mode: RoundingMode, report: &mut String) -> bool {
+    use std::cmp::Ordering::*;
+    let (n, s) = x.as_bigint_and_exponent();
+    let (ri, rs) = r.as_bigint_and_exponent();
+    if ri <= BigInt::from(0) { report.push_str("non-positive root; "); return false; }
+    // r^k = ri^k * 10^(-k rs)  vs  x = n * 10^(-s)
+    let c = |q: &BigInt| cmp_scaled(&q.pow(k), -(k as i64) * rs, &n, -s);
+    let exact = c(&ri) == Equal;
+    if exact { return true; }
+    if ndigits(&ri) != p { report.push_str(&format!("inexact root with {} digits instead of {}; ", ndigits(&ri), p)); return false; }
+    let two = BigInt::from(2);
+    let c2 = |q: &BigInt| cmp_scaled(&q.pow(k), -(k as i64) * rs, &(&n * two.pow(k)), -s);   // (q/2)^k vs x
+    let ok = match mode {
+        RoundingMode::Down | RoundingMode::Floor => c(&ri) == Less && c(&(&ri + 1)) == Greater,
+        RoundingMode::Up | RoundingMode::Ceiling => c(&(&ri - 1)) == Less && c(&ri) == Greater,
+        _ => c2(&(&ri * 2 - 1)) != Greater && c2(&(&ri * 2 + 1)) != Less,
+    };
+    if !ok { report.push_str("not the neighbour the mode prescribes; "); }
+    ok
+}
+fn mirror(m: RoundingMode) -> RoundingMode { match m { RoundingMode::Floor => RoundingMode::Ceiling, RoundingMode::Ceiling => RoundingMode::Floor, o => o } }
+
 fn main() {
     let args: Vec<String> = std::env::args().collect();
     let sc = args.get(1).map(|s| s.as_str()).unwrap_or("");
@@ -64,6 +101,55 @@ fn main() {
             let r = BigDecimal::from_str(&args[2]);
             println!("parse({:?}) = {:?}", &args[2], r);
             r.is_err()
+        }
+        // C10: sqrt under an explicit context:  sqrt_ctx <x> <p> <mode>   /  default context: sqrt <x>
+        "sqrt_ctx" | "sqrt" => {
+            let x = dec(&args[2]);
+            let (p, m) = if sc == "sqrt" { (100u64, RoundingMode::HalfEven) } else { (args[3].parse().unwrap(), mode_of(&args[4])) };
+            let r = if sc == "sqrt" { x.sqrt() } else { x.sqrt_with_context(&ctx_of(&args[3], &args[4])) }.expect("non-negative");
+            let mut rep = String::new();
+            let ok = root_ok(2, &x, &r, p, m, &mut rep);
+            println!("sqrt({}) @({},{:?}) = {}  {}", x, p, m, r, rep);
+            ok
+        }
+        // C11: cbrt_ctx <x> <p> <mode>
+        "cbrt_ctx" => {
+            let x = dec(&args[2]);
+            let p: u64 = args[3].parse().unwrap();
+            let m = mode_of(&args[4]);
+            let r = x.cbrt_with_context(&ctx_of(&args[3], &args[4]));
+            let neg = x.sign() == num_bigint::Sign::Minus;
+            let mut rep = String::new();
+            let ok = if neg { root_ok(3, &(-x.clone()), &(-r.clone()), p, mirror(m), &mut rep) } else { root_ok(3, &x, &r, p, m, &mut rep) };
+            println!("cbrt({}) @({},{:?}) = {}  {}", x, p, m, r, rep);
+            ok
+        }
+        // C12: inverse_ctx <x> <p> <mode>: sign of x, |r - 1/x| < 1 unit in the p-th digit, exact when 1/x terminates within p digits
+        "inverse_ctx" => {
+            let x = dec(&args[2]);
+            let p: u64 = args[3].parse().unwrap();
+            let r = x.inverse_with_context(&ctx_of(&args[3], &args[4]));
+            let (n, s) = x.abs().as_bigint_and_exponent();
+            let (ri, rs) = r.abs().as_bigint_and_exponent();
+            let mut ok = r.sign() == x.sign() && ndigits(&ri) <= p;
+            // |ri*n*10^-(rs+s) - 1| < n*10^-(rs+s)   <=>   |ri*n - 10^(rs+s)| < n   (scaled to integers)
+            let e = rs + s;
+            let (lhs, one) = if e >= 0 { (&ri * &n, pow10(e as u32)) } else { (&ri * &n * pow10((-e) as u32), BigInt::from(1)) };
+            let bound = if e >= 0 { n.clone() } else { &n * pow10((-e) as u32) };
+            let diff = if lhs >= one { &lhs - &one } else { &one - &lhs };
+            if diff >= bound { ok = false; }
+            // exact reciprocal representable at this scale must be returned exactly
+            if e >= 0 && (&one % &n) == BigInt::from(0) && lhs != one { ok = false; }
+            println!("inverse({}) @({},{}) = {}  |ri*n - 10^e| = {}", x, p, args[4], r, diff);
+            ok
+        }
+        // C12: inverse(-x) under Floor == -inverse(x) under Ceiling
+        "inverse_mirror" => {
+            let x = dec(&args[2]);
+            let a = (-x.clone()).inverse_with_context(&ctx_of(&args[3], "Floor"));
+            let b = -x.inverse_with_context(&ctx_of(&args[3], "Ceiling"));
+            println!("inverse(-x)|Floor = {}   -inverse(x)|Ceiling = {}", a, b);
+            a == b
         }
         _ => { eprintln!("unknown scenario"); std::process::exit(2) }
     };
